@@ -472,3 +472,65 @@ func VX_C18_DialSide(args []int) {
 	vxAssert(p.CountSession() <= 1, "never more than N sessions are live on the peer (a later call on an ended session must not revive it beside its successor without a slot)")
 	vxCover("c18.dial-side")
 }
+
+func init() { vxRegister("VX_C18_SlotWhileClosing", VX_C18_SlotWhileClosing) }
+
+// VX_C18_SlotWhileClosing: with the limit reached, one admitted session is
+// being closed locally while a handler of it is still running (the graceful
+// close waits; the connection is still open, the handler's reply will still
+// be written). Connections arriving in that window are refused: the closing
+// session holds its slot until it has ended. Afterwards the slot is usable
+// exactly once. args: N
+func VX_C18_SlotWhileClosing(args []int) {
+	N := args[0]
+	o := New(LimitConfig{MaxConn: int32(N)})
+	p := erpc.NewPeer(erpc.PeerConfig{}, o)
+	gate := make(chan struct{})
+	entered := make(chan struct{}, 1)
+	p.SetUnknownCall(func(ctx erpc.UnknownCallCtx) (interface{}, *erpc.Status) {
+		entered <- struct{}{}
+		<-gate
+		return []byte("r"), nil
+	})
+	var live []erpc.Session
+	var conns []*vxConn
+	for k := 0; k < N; k++ {
+		c := newVxConn("srv:1", fmt.Sprintf("cli:%d", k))
+		s, st := p.ServeConn(c)
+		vxAssert(st.OK(), "the first N connections are admitted")
+		live = append(live, s)
+		conns = append(conns, c)
+	}
+	conns[0].feed(vxFrame(erpc.TypeCall, 1, "/park", []byte("x")))
+	vxWaitIdle()
+	vxAssert(len(entered) == 1, "handler entered")
+	done := make(chan struct{})
+	go func() {
+		live[0].Close()
+		close(done)
+	}()
+	vxWaitIdle()
+	vxAssert(!vxClosedChan(done) && !conns[0].isClosed(), "[C08] Close waits for the running handler, the connection is still open")
+	for k := 0; k < 2; k++ {
+		c := newVxConn("srv:1", fmt.Sprintf("early:%d", k))
+		_, st := p.ServeConn(c)
+		vxWaitIdle()
+		vxAssert(!st.OK(), "a connection arriving while an admitted session is still being closed (its handler running, its connection open) is refused: never more than N sessions admitted concurrently")
+		vxAssert(st.OK() || c.isClosed(), "and closed")
+	}
+	close(gate)
+	vxWaitIdle()
+	vxAssert(vxClosedChan(done) && conns[0].isClosed(), "[C08] Close returned after the handler finished")
+	vxAssert(conns[0].nWrites() == 1, "[C08] whose genuine reply was written")
+	admitted := 0
+	for k := 0; k < 3; k++ {
+		c := newVxConn("srv:1", fmt.Sprintf("late:%d", k))
+		_, st := p.ServeConn(c)
+		if st.OK() {
+			admitted++
+		}
+		vxWaitIdle()
+	}
+	vxAssert(admitted == 1, "once the session has ended its slot is usable again, exactly once")
+	vxCover("c18.slot-while-closing")
+}
